@@ -266,10 +266,12 @@ func (h *uhandler) cb(m, t string) {
 	h.w.log(fw.Event{"ev": "Cb", "n": int(h.w.curN.Load()), "h": h.name, "m": m, "t": t})
 	h.w.s.Gate("cb", map[string]any{"h": h.name})
 }
-func (h *uhandler) OnSystemMessage(title, message, level string)                 { h.cb("sys", "") }
-func (h *uhandler) OnQuotaWarning(quotaType string, p float64, message string)    { h.cb("other", "") }
-func (h *uhandler) OnMappingEvent(t packet.NotificationType, id, st, m string)    { h.cb("other", "") }
-func (h *uhandler) OnTunnelOpened(tunnelID, mappingID string, peerClientID int64) { h.cb("other", tunnelID) }
+func (h *uhandler) OnSystemMessage(title, message, level string)               { h.cb("sys", "") }
+func (h *uhandler) OnQuotaWarning(quotaType string, p float64, message string) { h.cb("other", "") }
+func (h *uhandler) OnMappingEvent(t packet.NotificationType, id, st, m string) { h.cb("other", "") }
+func (h *uhandler) OnTunnelOpened(tunnelID, mappingID string, peerClientID int64) {
+	h.cb("other", tunnelID)
+}
 func (h *uhandler) OnCustomNotification(s int64, a string, d map[string]string, raw string) {
 	h.cb("other", "")
 }
